@@ -185,7 +185,10 @@ class VM:
                 val = self.ev(s.value, env)
                 new = base.base + "'"
                 self.defs[new] = (tgt, val, base.base)
-                env[nm] = View(new, base.axes, base.lens, base.fixed)
+                # every view of the same memory sees the store (`plane = c[..., 0]; plane[...] = v` modifies c)
+                for nm_, v_ in list(env.items()):
+                    if isinstance(v_, View) and v_.base == base.base:
+                        env[nm_] = View(new, v_.axes, v_.lens, v_.fixed)
             elif isinstance(s, ast.Return):
                 ret = self.ev(s.value, env)
                 break
